@@ -134,8 +134,13 @@ Lemma do_ack_ok c s m ex ip : vals_ok c s -> usable4 c ip = true -> vals_ok c (d
 Proof.
   intros (H1 & H2 & H3 & H4) Hu. repeat split; cbn; auto.
   - intros p Hp. apply in_aset in Hp. destruct Hp as [Hp|Hp]; [subst; exact Hu|auto].
-  - intros p Hp. match type of Hp with In _ (if ?b then _ else _) => destruct b end; [auto|].
-    apply in_aset in Hp. destruct Hp as [Hp|Hp]; [subst; exact Hu|auto].
+  - assert (Hd : forall cid p, In p (drop_old_cid (cidx s) ex cid) -> In p (cidx s)).
+    { intros cid p. unfold drop_old_cid. destruct ex as [e|]; [|auto].
+      destruct (negb (l_cid (fst e) =? 0) && negb (l_cid (fst e) =? cid)); [|auto].
+      destruct (alookup (l_cid (fst e)) (cidx s)); [|auto].
+      destruct (lease4_eqb l (fst e)); [apply in_aremove|auto]. }
+    intros p Hp. match type of Hp with In _ (if ?b then _ else _) => destruct b end; [eauto|].
+    apply in_aset in Hp. destruct Hp as [Hp|Hp]; [subst; exact Hu|eauto].
 Qed.
 
 Lemma existing_usable c s m e : vals_ok c s -> existing s m = Some e -> usable4 c (l_ip (fst e)) = true.
